@@ -141,7 +141,8 @@ Theorem C14_source_facts :
   gen_announce_fresh_sequence_own_origin = true /\ gen_increment_sequence_is_plus_one = true /\
   gen_replay_sequence_chosen_per_split_group = true /\
   gen_replay_keeps_best_group_per_origin_sequence = true /\
-  gen_max_routes_per_advertisement = 255.
+  gen_max_routes_per_advertisement = 255 /\
+  gen_display_name_cut_to_255_bytes_c14 = true.
 Proof. repeat split; reflexivity. Qed.
 End SourceFacts.
 Print Assumptions C14_source_facts.
